@@ -169,6 +169,8 @@ contracts.update({
         "__CPROVER_assigns(__CPROVER_object_whole(buffer))\n"
         "__CPROVER_ensures(__CPROVER_return_value == (hex.length_ <= 2 * buffer_size))\n"
         "__CPROVER_ensures(!__CPROVER_return_value ==> (g_j < buffer_size ==> buffer[g_j] == 0))\n"
+        # on failure the whole buffer is zero (needed jointly by callers that ignore the result): 16 explicit positions
+        + "".join("__CPROVER_ensures((!__CPROVER_return_value && %d < buffer_size) ==> buffer[%d] == 0)\n" % (k, k) for k in range(16)) +
         "__CPROVER_ensures(__CPROVER_return_value ==> (g_j < buffer_size ==> HB_EXPECT_AT(hex, buffer_size, buffer, g_j)))\n",
         "loops": {1:
         "__CPROVER_assigns(i, buffer_pos, __CPROVER_object_whole(buffer))\n"
@@ -186,7 +188,9 @@ contracts.update({
             ("__CPROVER_ensures(%(j)d < __CPROVER_return_value ==> (SS_INSIDE(s, results, %(j)d) && SS_NOSEP(s, separator, results, %(j)d, g_k)))\n" +
              ("__CPROVER_ensures(%(j)d + 1 < __CPROVER_return_value ==> (SS_END(s, results, %(j)d) < s.length_ && s.data_[SS_END(s, results, %(j)d)] == separator))\n"
               "__CPROVER_ensures(%(j)d + 1 < __CPROVER_return_value ==> __CPROVER_pointer_equals(results[%(j)d + 1].data_, results[%(j)d].data_ + results[%(j)d].length_ + 1))\n"
-              if j < 3 else "")) % {"j": j} for j in range(4)) +
+              if j < 3 else "")) % {"j": j} for j in range(4))
+        + "".join("__CPROVER_ensures((%(j)d < count && %(j)d >= __CPROVER_return_value) ==> (results[%(j)d].length_ == __CPROVER_old(results[%(j)d * (%(j)d < count)].length_) && "
+                  "results[%(j)d].data_ == __CPROVER_old(results[%(j)d * (%(j)d < count)].data_)))\n" % {"j": j} for j in range(1, 4)) +
         "__CPROVER_ensures(count > 0 ==> (SS_END(s, results, __CPROVER_return_value - 1) == s.length_ || "
         "(__CPROVER_return_value == count && s.data_[SS_END(s, results, __CPROVER_return_value - 1)] == separator)))\n",
         "loops": {1:
@@ -195,7 +199,8 @@ contracts.update({
         "__CPROVER_loop_invariant(filled == 0 ==> token_start == 0)\n"
         "__CPROVER_loop_invariant(filled > 0 ==> (results[0].data_ == s.data_ && token_start == SS_END(s, results, filled - 1) + 1 && s.data_[token_start - 1] == separator))\n" +
         _ss("loop_invariant", "filled") +
-        "__CPROVER_loop_invariant((token_start <= g_k && g_k < i) ==> s.data_[g_k] != separator)\n"
+        "__CPROVER_loop_invariant((token_start <= g_k && g_k < i) ==> s.data_[g_k] != separator)\n" + "".join("__CPROVER_loop_invariant((%(j)d < count && %(j)d >= filled) ==> (results[%(j)d].length_ == __CPROVER_loop_entry(results[%(j)d * (%(j)d < count)].length_) && "
+                  "results[%(j)d].data_ == __CPROVER_loop_entry(results[%(j)d * (%(j)d < count)].data_)))\n" % {"j": j} for j in range(1, 4)) +
         "__CPROVER_decreases(s.length_ - i)\n"}},
     "StringUtil_Trim_3": {
         "pre": SV_OK("str") +
@@ -341,11 +346,17 @@ void h_refute_extract(void)
 {
   xc_havoc_ghosts();
   unsigned long n; __CPROVER_assume(n <= %(R)d);
-  char hdr[%(R)d];
-  for (unsigned i = 0; i < %(R)d; i++) cex_hdr[i] = hdr[i];
+  char *hdr = malloc(n);            /* exact-size object: an out-of-bounds read of the view is an out-of-bounds read of the object */
+  __CPROVER_assume(hdr != NULL);
+  for (unsigned i = 0; i < %(R)d; i++) if (i < n) cex_hdr[i] = hdr[i];
   cex_len = n;
+  /* search space of the refutation (not of the proofs): near-well-formed headers of 50..%(R)d bytes, at most one
+     leading blank, the three dashes in place */
+  __CPROVER_assume(n >= 50);
+  unsigned lead = hdr[0] == ' ' ? 1 : 0;
+  __CPROVER_assume(hdr[lead + 2] == '-' && hdr[lead + 35] == '-' && (lead + 52 >= n || hdr[lead + 52] == '-'));
   g_get_ret[0].data_ = hdr; g_get_ret[0].length_ = n;
-  g_get_ret[1].data_ = hdr; g_get_ret[1].length_ = 0;
+  g_get_ret[1].data_ = ""; g_get_ret[1].length_ = 0;
   HttpTraceContext self; xc_carrier carrier; xc_ctx ctx; ctx.id = 5; g_setspan_result_id = 9;
   xc_ctx out = HttpTraceContext_Extract(&self, &carrier, &ctx);
   SpanContext sc = g_new_span_context;
@@ -389,6 +400,7 @@ void h_refute_inject(void)
 """
 
 DRIVER = ("c09_native", ["c09_native.cc"])
+DRIVER_FLAGS = ["-fsanitize=address,undefined", "-fno-sanitize-recover=all"]
 
 
 def _hex(bs):
@@ -396,15 +408,32 @@ def _hex(bs):
 
 
 def refute_extract(mod, proof, violations, ix, workdir, seed):
+    """1. directed native search over near-well-formed headers on the real code (ASan/UBSan build);
+    2. (thorough tier only, slow) bounded inlined CBMC search."""
+    import os, re as _re
+    binpath = R.build_native(DRIVER[0], [os.path.join(R.core.HERE, "replay", s) for s in DRIVER[1]], DRIVER_FLAGS)
+    rc, out = R.run_native(binpath, ["search"], timeout=300)
+    if rc != 0:
+        import subprocess
+        full = subprocess.run([binpath, "search"], stdout=subprocess.PIPE, stderr=subprocess.STDOUT, text=True).stdout
+        cands = _re.findall(r"^(?:CAND|FOUND) ([0-9a-f]*)$", full, _re.M)
+        if cands:
+            hx = cands[-1]
+            r = R.native_check(DRIVER[0], DRIVER[1], ["extract", hx], DRIVER_FLAGS)
+            r["input"] = {"traceparent_bytes_hex": hx, "found_by": "directed native search (refute mode)"}
+            if r["reproduced"]:
+                return r
+    if os.environ.get("VERIF_TIER", "quick") != "thorough":
+        return None
     import sys
     me = sys.modules[__name__]
     vals = R.bounded_cex(me, "refute_extract", [("HttpTraceContext::Extract", 2)], H_REFUTE_EXTRACT, ix,
-                         workdir, unwind=XC_R + 2, timeout=1200)
+                         workdir, unwind=XC_R + 2, timeout=420)
     if not vals:
         return None
     n = R.to_int(vals.get("cex_len")) or 0
     hdr = R.array_from(vals, "cex_hdr", XC_R)[:n]
-    r = R.native_check(DRIVER[0], DRIVER[1], ["extract", _hex(hdr)])
+    r = R.native_check(DRIVER[0], DRIVER[1], ["extract", _hex(hdr)], DRIVER_FLAGS)
     r["input"] = {"traceparent_bytes_hex": _hex(hdr), "failed_assertion": vals.get("__failed__")}
     return r
 
@@ -418,7 +447,7 @@ def refute_inject(mod, proof, violations, ix, workdir, seed):
     tid = R.array_from(vals, "cex_tid", 16)
     sid = R.array_from(vals, "cex_sid", 8)
     fl = R.to_int(vals.get("cex_flags")) or 0
-    r = R.native_check(DRIVER[0], DRIVER[1], ["inject", _hex(tid), _hex(sid), "%02x" % fl])
+    r = R.native_check(DRIVER[0], DRIVER[1], ["inject", _hex(tid), _hex(sid), "%02x" % fl], DRIVER_FLAGS)
     r["input"] = {"trace_id": _hex(tid), "span_id": _hex(sid), "flags": "%02x" % fl, "failed_assertion": vals.get("__failed__")}
     return r
 
@@ -433,15 +462,34 @@ def refute_flags(mod, proof, violations, ix, workdir, seed):
             b = R.to_int(v)
     if b is None:
         return None
-    r = R.native_check(DRIVER[0], DRIVER[1], ["flags", b])
+    r = R.native_check(DRIVER[0], DRIVER[1], ["flags", b], DRIVER_FLAGS)
     r["input"] = {"flags_byte": b}
     return r
 
 
-refuters = {"TraceFlags_ToLowerBase16": refute_flags}
+def refute_hextoint(mod, proof, violations, ix, workdir, seed):
+    vals = R.leaf_trace(workdir, proof.name, violations[0]["obligation"])
+    c = None
+    for k, v in (vals or {}).items():
+        if k.endswith("xc_a_c") or k == "c":
+            c = R.to_int(v)
+    if c is None:
+        return refute_extract(mod, proof, violations, ix, workdir, seed)
+    c &= 0xff
+    # the byte is placed in the trace-id field of an otherwise well-formed header (and, for a byte that is a hex digit, used as is)
+    hdr = list(b"00-0af7651916cd43dd8448eb211c80319c-b9c7c989f97918e1-01")
+    hdr[3] = c
+    r = R.native_check(DRIVER[0], DRIVER[1], ["extract", _hex(hdr)], DRIVER_FLAGS)
+    r["input"] = {"byte": c, "traceparent_bytes_hex": _hex(hdr)}
+    if not r["reproduced"]:
+        return refute_extract(mod, proof, violations, ix, workdir, seed)
+    return r
+
+
+refuters = {"TraceFlags_ToLowerBase16": refute_flags, "HexToInt": refute_hextoint}
 for _n in ("TraceId_ToLowerBase16", "SpanId_ToLowerBase16", "InjectImpl", "Inject"):
     refuters[_n] = refute_inject
-for _n in ("HexToInt", "IsValidHex", "HexToBinary", "SplitString", "Trim3", "Trim1", "sv_eq", "ExtractContextFromTraceHeaders",
+for _n in ("IsValidHex", "HexToBinary", "SplitString", "Trim3", "Trim1", "sv_eq", "ExtractContextFromTraceHeaders",
            "ExtractImpl", "Extract", "Extract_completeness"):
     refuters[_n] = refute_extract
 refuters["RoundTrip"] = refute_inject
